@@ -828,7 +828,13 @@ func (s *Sim) afterBatch(t int64, g []*pendSQE, cqes []*bus.CQE[t_aio.Submission
 	s.mon.OnBatch(s.snap, bi, next)
 	for _, tx := range bi.Txs {
 		if o := s.opById[tx.ReqId]; o != nil {
-			o.Txs = append(o.Txs, &OpTx{Tx: tx, Prev: s.snap, Next: next, Tick: t, Dispatch: tx.Dispatch, Alone: len(bi.Txs) == 1, Failed: bi.Err != nil})
+			ot := &OpTx{Tx: tx, Tick: t, Dispatch: tx.Dispatch, Alone: len(bi.Txs) == 1, Failed: bi.Err != nil}
+			if s.spec {
+				// only the sequential-spec check looks at the states around a transaction; keeping every
+				// snapshot alive for the whole scenario costs gigabytes on large populations
+				ot.Prev, ot.Next = s.snap, next
+			}
+			o.Txs = append(o.Txs, ot)
 		}
 	}
 	s.snap = next
